@@ -53,10 +53,11 @@ type resSub struct {
 }
 
 type qact struct {
-	kind string // start step get recv cancel
-	i    int
-	del  bool
-	id   string
+	kind     string // start step get recv cancel
+	i        int
+	del      bool
+	id       string
+	conflict int // 1 + writer whose parked Delete has the same id
 }
 
 func (a qact) coq() string {
@@ -93,9 +94,6 @@ func (g *gen) resScript(idx int) error {
 	nSub := r.Range(1, 2)
 	if r.Intn(20) == 0 {
 		nSub = 0 // boundary: nobody subscribed, nothing may ever block
-	}
-	if g.tier == "thorough" && r.Chance(30) {
-		nSub = 3
 	}
 	gs := &gates{byGID: map[int64]*gate{}, parking: resParking}
 	verifhook.Set(gs.hook)
@@ -150,8 +148,12 @@ func (g *gen) resScript(idx int) error {
 	for i := range writers {
 		writers[i] = &resWriter{g: newGate()}
 	}
-	busy := map[string]bool{} // ids used by a call in flight
+	busy := map[string]int{} // ids used by calls in flight
 	busyOf := make([]string, nW)
+	// the one conflict the scripts build on purpose: an Update of the id of a Delete that is parked
+	// after its first read, so that the Delete finds the item changed, unlocks and retries
+	conflictWith := make([]int, nW) // for a writer running such a Delete: 1 + index of the updater
+	var lastDump []ginfo
 	var gmu sync.Mutex
 	getsBlocked := 0
 
@@ -191,14 +193,14 @@ func (g *gen) resScript(idx int) error {
 		return o
 	}
 
-	startCall := func(wi int, del bool, id string) {
+	startCall := func(wi int, del bool, id string, conflict int) {
 		w := writers[wi]
 		w.mu.Lock()
 		w.calls++
 		n := w.calls
 		w.incall = true
 		w.mu.Unlock()
-		busy[id] = true
+		busy[id]++
 		busyOf[wi] = id
 		nv := 100*(wi+1) + n // unique among the values ever written
 		emu.Lock()
@@ -207,10 +209,21 @@ func (g *gen) resScript(idx int) error {
 		} else {
 			evOf[key{id: id, v: nv}] = [2]int{wi, n}
 		}
+		if conflict >= 0 {
+			// the parked Delete of writer `conflict` will remove the value written now
+			writers[conflict].mu.Lock()
+			dn := writers[conflict].calls
+			writers[conflict].mu.Unlock()
+			evOf[key{id: id, v: nv, del: true}] = [2]int{conflict, dn}
+			conflictWith[conflict] = wi + 1
+		}
 		emu.Unlock()
-		if del {
+		switch {
+		case del:
 			delete(val, id)
-		} else {
+		case conflict >= 0:
+			// stays absent: the Delete comes after this Update
+		default:
 			val[id] = nv
 		}
 		w.mu.Lock()
@@ -243,10 +256,10 @@ func (g *gen) resScript(idx int) error {
 	var obs [][]int
 	tags := map[string]bool{}
 	nontrivial := false
+	// same script sizes in both tiers: with three subscribers or 25 actions the set of model states
+	// compatible with the observations (every order in which several blocked writers are served)
+	// grows until one case takes coqc more than ten minutes
 	steps := r.Range(5, 16)
-	if g.tier == "thorough" {
-		steps = r.Range(5, 26)
-	}
 	// half of the scripts are directed: first a Delete goes as far as it can while nobody
 	// receives (it ends up blocked in bus.Send holding c.mu), then the rest is random
 	directed := r.Chance(50)
@@ -255,8 +268,9 @@ func (g *gen) resScript(idx int) error {
 		for wi, w := range writers {
 			w.mu.Lock()
 			if !w.incall && busyOf[wi] != "" {
-				delete(busy, busyOf[wi])
+				busy[busyOf[wi]]--
 				busyOf[wi] = ""
+				conflictWith[wi] = 0
 			}
 			w.mu.Unlock()
 		}
@@ -269,13 +283,31 @@ func (g *gen) resScript(idx int) error {
 			w.mu.Lock()
 			at, incall, calls := w.g.at(), w.incall, w.calls
 			w.mu.Unlock()
+			// a Delete whose id is being updated on purpose waits until that Update has committed
+			// (returned, parked before bus.Send, or inside bus.Send / at the turnstile)
+			held := false
+			if at == "del.read" && conflictWith[wi] > 0 {
+				u := writers[conflictWith[wi]-1]
+				u.mu.Lock()
+				uin, uat, ugid := u.incall, u.g.at(), u.gid
+				u.mu.Unlock()
+				if uin && uat != "coll.publish" {
+					held = true
+					for _, gi := range lastDump {
+						if gi.id == ugid && (gi.state == "select" || gi.state == "sync.Cond.Wait") {
+							held = false
+						}
+					}
+				}
+			}
 			switch {
+			case at != "" && held:
 			case at != "":
 				cs = append(cs, cand{qact{kind: "step", i: wi}, 40})
 			case !incall && calls < 4:
 				var free, freeExisting []string
 				for _, id := range ids {
-					if !busy[id] {
+					if busy[id] == 0 {
 						free = append(free, id)
 						if _, ok := val[id]; ok {
 							freeExisting = append(freeExisting, id)
@@ -291,6 +323,14 @@ func (g *gen) resScript(idx int) error {
 				}
 				if len(free) > 0 {
 					cs = append(cs, cand{qact{kind: "start", i: wi, id: free[r.Intn(len(free))]}, 14})
+				}
+				for di, dw := range writers {
+					dw.mu.Lock()
+					dat, ddel := dw.g.at(), dw.isDel
+					dw.mu.Unlock()
+					if di != wi && dat == "del.read" && ddel && conflictWith[di] == 0 && busy[busyOf[di]] == 1 {
+						cs = append(cs, cand{qact{kind: "start", i: wi, id: busyOf[di], conflict: di + 1}, 30})
+					}
 				}
 			}
 		}
@@ -331,7 +371,10 @@ func (g *gen) resScript(idx int) error {
 		}
 		switch a.kind {
 		case "start":
-			startCall(a.i, a.del, a.id)
+			startCall(a.i, a.del, a.id, a.conflict-1)
+			if a.conflict > 0 {
+				tags["res:delete-retry-provoked"] = true
+			}
 		case "step":
 			writers[a.i].g.release <- struct{}{}
 		case "get":
@@ -372,6 +415,7 @@ func (g *gen) resScript(idx int) error {
 		if err != nil {
 			return fmt.Errorf("res script after %v: %w", a, err)
 		}
+		lastDump = d
 		script = append(script, a)
 		o := observe()
 		obs = append(obs, o)
@@ -487,6 +531,9 @@ func (g *gen) resScript(idx int) error {
 	for i, a := range script {
 		items[i] = vcoq.Pair(a.coq(), zlist(obs[i]))
 		js[i] = map[string]any{"action": a.kind, "index": a.i, "delete": a.del, "id": a.id, "observed": obs[i]}
+		if a.conflict > 0 {
+			js[i].(map[string]any)["same_id_as_parked_delete_of_writer"] = a.conflict - 1
+		}
 	}
 	coq := vcoq.App("KRes", vcoq.App("mkRC", vcoq.Bool(ts), vcoq.Nat(nW), vcoq.Nat(nSub), vcoq.List(items),
 		vcoq.Int(np), vcoq.Int(leaks), vcoq.Int(stuck)))
